@@ -26,7 +26,7 @@ template <typename T>
 using unwrap_reference_t = typename unwrap_reference<T>::type;
 
 template <typename T>
-struct unwrap_ref_decay : conditional_t<not is_same_v<decay_t<T>, T>, unwrap_reference<decay_t<T>>, decay<T>> { };
+struct unwrap_ref_decay : unwrap_reference<decay_t<T>> { };
 
 template <typename T>
 using unwrap_ref_decay_t = typename unwrap_ref_decay<T>::type;
